@@ -542,6 +542,12 @@ func (g *GengineParserListener) ExitForStmt(ctx *parser.ForStmtContext) {
 		return
 	}
 	forStmt := g.Stack.Pop().(*base.ForStmt)
+
+	forStmt.Code = ctx.GetText()
+	forStmt.LineNum = ctx.GetStart().GetLine()
+	forStmt.Column = ctx.GetStart().GetColumn()
+	forStmt.LineStop = ctx.GetStop().GetColumn()
+
 	statement := g.Stack.Peek().(*base.Statement)
 	statement.ForStmt = forStmt
 }
@@ -561,6 +567,12 @@ func (g *GengineParserListener) ExitForRangeStmt(ctx *parser.ForRangeStmtContext
 		return
 	}
 	forRangeStmt := g.Stack.Pop().(*base.ForRangeStmt)
+
+	forRangeStmt.Code = ctx.GetText()
+	forRangeStmt.LineNum = ctx.GetStart().GetLine()
+	forRangeStmt.Column = ctx.GetStart().GetColumn()
+	forRangeStmt.LineStop = ctx.GetStop().GetColumn()
+
 	statement := g.Stack.Peek().(*base.Statement)
 	statement.ForRangeStmt = forRangeStmt
 }
@@ -778,6 +790,12 @@ func (g *GengineParserListener) ExitMapVar(ctx *parser.MapVarContext) {
 		return
 	}
 	mapVar := g.Stack.Pop().(*base.MapVar)
+
+	mapVar.Code = ctx.GetText()
+	mapVar.LineNum = ctx.GetStart().GetLine()
+	mapVar.Column = ctx.GetStart().GetColumn()
+	mapVar.LineStop = ctx.GetStop().GetColumn()
+
 	holder := g.Stack.Peek().(base.MapVarHolder)
 	err := holder.AcceptMapVar(mapVar)
 	if err != nil {
